@@ -32,6 +32,12 @@ CHECKS = {
  "C10": (MC, "TLC: GenCalc generator + Calc.tla C-grammar evaluator; replay of constant expressions in five constant positions into the real compiler", "6.C10",
          "GenCalc.tla enumerates token strings (all ordered pairs of the 17 binary operators over six literal triples, both parenthesisations, unary operators in every operand position, chains, nested ?:, hex/octal/character literals, overflow and division-by-zero edges) with the value Calc.tla assigns; each is compiled in initialiser, array size, array element, aligned() and asm size position. Values that fit must be exact; division by zero and >31-bit values must be errors; never a crash.",
          "Trusted: Calc.tla (self-tested). >> of negatives and shift counts >= 16 are not decided; 17..31-bit values may be rejected or exact."),
+ "C12": (MC, "TLC: GenGraph generator + CallGraph.tla predicates (work-list reachability) over the published tree / in-use set / emitted JSRs", "6.C12",
+         "GenGraph.tla enumerates acyclic call graphs over main,f1,f2,f3 with every call in a syntactic position (statement, condition, argument, loop body, return, ternary, switch case) and attributes (inline subsets, interrupt handler, unused function, prototypes first); CallGraph.tla checks: every source call is in the tree, every emitted JSR is reachable through it, in-use = Reach(tree, main + interrupts) exactly and covers the source-reachable set.",
+         "Trusted: driver's rendering of call sites; one site per (caller, callee)."),
+ "C16": (EX, "systematic token-level mutation of the repository's own test inputs; every recorded outcome validated by TLC against Outcome.tla", "6.C16",
+         "About 24 000 (quick) near-valid programs: each C source the repository's tests compile (read from src/lib.rs at run time) and eight own programs, mutated at token level (delete, duplicate, swap, replace/insert from a 130-entry menu of keywords, operators, malformed and out-of-range literals, quotes, directives, self-referential macros, deep nesting), under five option sets, each compiled in a child process with a deadline; TLC accepts an outcome iff it is a result or a located/structured error. Exploration, not a proof of totality.",
+         "8 MB stack, 2.5 s deadline. Crash findings are identified by source file and panic message."),
  "C13": (MC, "TLC: Asm.tla legality/label acceptance over every emitted function", "6.C13",
          "Every emitted function of the corpus (as C04, plus label-stress programs: repeated/nested inlining, goto labels, loops and early returns in inlined code, long-branch repair) must use only (mnemonic, mode) pairs of the 6502, define each label once and define every reference.",
          "Trusted: Enc6502 table, harness operand splitter. Inline-function bodies are templates and are judged only where expanded."),
